@@ -151,6 +151,7 @@ func (ex *Exec) ResetRun() {
 	ex.Steps = 0
 	ex.Events = nil
 	ex.digitMemo = nil
+	ex.ymdMemo = nil
 	ex.randN = 0
 }
 
